@@ -13,7 +13,7 @@ from vf.ref import execute as refx
 ID = "C07"
 BOUNDS = {
     "quick": "10 subscription documents x event sequences of length 0..2 over 5 payload shapes x 5 source kinds (async generator, custom iterator with / without aclose, aclose that raises, awaitable-returning resolver) x source failure at every position x per-event resolver sync/async x all interleavings of source / pull / resolver gates x early release <=1; 7 creation-failure modes",
-    "thorough": "event sequences of length 0..3, early release <=2",
+    "thorough": "event sequences of length 0..4, early release <=2",
 }
 RULE = (
     "stateless exploration on the hand-stepped loop: the consumer observes exactly one response per source event, in order, each equal to "
@@ -79,7 +79,7 @@ class SourceFailure(Exception):
 def scenario_map(c, schema, doc, text, source_kind, tier):
     from graphql import ExecutionResult, subscribe
 
-    maxlen = 2 if tier == "quick" else 3
+    maxlen = 2 if tier == "quick" else 4
     bound_early = True
     pl = payloads()
     n = c.choose(maxlen + 1, "n_events", cost=0)
